@@ -5,8 +5,8 @@ import UmProofs.BrokerScaleArith
 Definitions shared by the scale-out and the scale-down plan proofs and the specification of one
 cut from the *end* of a source range list.
 -/
-namespace Um.Broker
-open Um Um.Slots
+namespace Um.Broker.Scale
+open Um Um.Slots Um.Broker
 
 /-- `Σ_{i<n} f i` -/
 def sumTo (f : Nat → Nat) : Nat → Nat
@@ -161,4 +161,4 @@ theorem cutLast_spec {rl : RangeList} {last : Range} (cur : RangeList) (curNum r
         · simp only [List.mem_singleton] at hb; subst hb
           show a.2 < last.2 - removeNum + 1; omega
 
-end Um.Broker
+end Um.Broker.Scale
